@@ -104,13 +104,20 @@ Definition init : state :=
      hd := {| h_trk := []; h_tab := []; h_nextpid := 0; h_nextrid := first_reqid; h_pend := []; h_acks := [] |};
      ch_oh := []; ch_ho := []; lost := false; leaked := [] |}.
 
+(* clids of the two kinds of exported things, from ONE counter and in ONE table: Referenceables (objects x >= 0,
+   getTrackerForMyReference) get the next number, bound methods (objects x < 0, CallableSlicer -> getTrackerForMyCall) its
+   negation (callable_clid, read from the source); the holder picks RemoteReferenceTracker / RemoteMethodReferenceTracker by the
+   sign, both count alike (getRef_incr_method) *)
+Definition new_clid (x n : Z) : Z := if x <? 0 then callable_clid n else n.
+
 (* ---- Send: ReferenceableSlicer.slice = getTrackerForMyReference + tracker.send() + `yield tracker.clid` *)
 Definition do_send (s : state) (x : Z) (disc : bool) : state * list event :=
   let o := ow s in
   let '(c, tab, nxt, al) :=
     match find_obj (o_tab o) x with
     | Some e => (oe_clid e, o_tab o, o_next o, o_alloc o)
-    | None => (o_next o, {| oe_obj := x; oe_clid := o_next o; oe_rc := 0 |} :: o_tab o, o_next o + 1, (o_next o, x) :: o_alloc o)
+    | None => (new_clid x (o_next o), {| oe_obj := x; oe_clid := new_clid x (o_next o); oe_rc := 0 |} :: o_tab o, o_next o + 1,
+               (new_clid x (o_next o), x) :: o_alloc o)
     end in
   match send (rc tab c) with
   | Ok (_, v) =>
